@@ -3,6 +3,7 @@ package main
 import (
 	"fmt"
 	"go/ast"
+	"go/constant"
 	"go/printer"
 	"go/token"
 	"go/types"
@@ -805,6 +806,7 @@ func (c *fnCtx) forStmt(ind int, s *ast.ForStmt) {
 		bad("condition does not compare the loop variable (on the left)")
 	}
 	up := false
+	step := uint64(1)
 	switch p := s.Post.(type) {
 	case *ast.IncDecStmt:
 		pid, ok := unparen(p.X).(*ast.Ident)
@@ -812,8 +814,31 @@ func (c *fnCtx) forStmt(ind int, s *ast.ForStmt) {
 			bad("post statement does not step the loop variable")
 		}
 		up = p.Tok == token.INC
+	case *ast.AssignStmt:
+		// `i += k` with constants a (start) and k ≥ 1 such that (max of the type − a) is a multiple of k: the values a, a+k, …
+		// never pass the maximum of the type without hitting it, and at the maximum `i < b` is false for every b, so the
+		// Go loop cannot wrap around. Only with `<`. (decoder/raw.go: `for i := uint16(0); i < nFields*3; i += 3`.)
+		pid, ok := unparen(p.Lhs[0]).(*ast.Ident)
+		if p.Tok != token.ADD_ASSIGN || len(p.Lhs) != 1 || len(p.Rhs) != 1 || !ok || c.info.Uses[pid] != obj {
+			bad("post statement is not i++ / i-- / i += k")
+		}
+		kv, av := c.info.Types[p.Rhs[0]].Value, c.info.Types[init.Rhs[0]].Value
+		if kv == nil || av == nil || cond.Op != token.LSS {
+			bad("a step `i += k` needs a constant start, a constant step and the comparison `<`")
+		}
+		k, okk := constant.Uint64Val(constant.ToInt(kv))
+		a0, oka := constant.Uint64Val(constant.ToInt(av))
+		max := ^uint64(0) >> (64 - uint(w))
+		if signed {
+			max >>= 1
+		}
+		if !okk || !oka || k == 0 || a0 > max || (max-a0)%k != 0 {
+			bad("with this start and step the loop variable could pass the maximum of its type (the loop could wrap around)")
+		}
+		step = k
+		up = true
 	default:
-		bad("post statement is not i++ / i--")
+		bad("post statement is not i++ / i-- / i += k")
 	}
 	asg := assignedRoots(c.info, s.Body)
 	if asg[obj] {
@@ -854,6 +879,8 @@ func (c *fnCtx) forStmt(ind int, s *ast.ForStmt) {
 	g := map[bool]string{true: "Go.downI", false: "Go.downN"}[signed]
 	one := map[bool]string{true: "(1 : Int)", false: "1"}[signed]
 	switch {
+	case up && cond.Op == token.LSS && step != 1:
+		c.emit(ind, fmt.Sprintf("for %s in %s %s %s %d do", name, map[bool]string{true: "Go.stepI", false: "Go.stepN"}[signed], a, b, step))
 	case up && cond.Op == token.LSS:
 		c.emit(ind, fmt.Sprintf("for %s in %s %s %s do", name, f, a, b))
 	case up && cond.Op == token.LEQ:
